@@ -109,7 +109,7 @@ class Policy:
             key = None
             val = None
             try:
-                key, val = line.split('=')
+                key, val = line.split('=', 1)  # Algorithm names may themselves contain '=' (i.e.: the base64 suffix of 'gss-*' key exchanges).
             except ValueError as ve:
                 raise ValueError("could not parse line: %s" % line) from ve
 
